@@ -15,22 +15,36 @@ def generate():
     import importlib
 
     sbm = importlib.import_module("bartiq.symbolics.sympy_backend")
+
+    # the tables are private module globals: found by name, or — after a rename — by their shape
+    def by_shape(pred, what):
+        found = [v for v in vars(ast_parser).values() if isinstance(v, dict) and v and pred(v)]
+        if len(found) != 1:
+            raise ValueError(f"cannot locate {what} in ast_parser ({len(found)} candidates)")
+        return found[0]
+
+    bin_map = getattr(ast_parser, "_BINARY_OP_MAP", None) or by_shape(
+        lambda d: all(isinstance(k, type) and issubclass(k, ast.operator) for k in d), "the binary operator table")
+    un_map = getattr(ast_parser, "_UNARY_OP_MAP", None) or by_shape(
+        lambda d: all(isinstance(k, type) and issubclass(k, ast.unaryop) for k in d), "the unary operator table")
+    restricted_map = getattr(ast_parser, "_RESTRICTED_NAMES", None) or by_shape(
+        lambda d: all(isinstance(k, str) and isinstance(v, str) for k, v in d.items()) and {"lambda", "in"} <= set(d), "the reserved-word table")
     binops = []
-    for node, fn in ast_parser._BINARY_OP_MAP.items():
+    for node, fn in bin_map.items():
         if node not in AST:
             raise ValueError(f"unknown AST operator {node}")
         binops.append((AST[node], OPS.get(fn, "unknown")))
     binops.sort()
     # unary: probe the callables on a number (lambda x: +x is not an operator.* object)
     unary = []
-    for node, fn in ast_parser._UNARY_OP_MAP.items():
+    for node, fn in un_map.items():
         sign = "-" if node is ast.USub else "+" if node is ast.UAdd else "?"
         val = fn(7)
         unary.append((sign, "neg" if val == -7 else "pos" if val == 7 else "unknown"))
     unary.sort()
     builtins = sorted(SPECIAL_FUNCS)
     specials = sorted(SPECIAL_PARAMS)
-    restricted = sorted(ast_parser._RESTRICTED_NAMES.items())
+    restricted = sorted(restricted_map.items())
     prec = int(sbm.NUM_DIGITS_PRECISION)
 
     def op(o):
